@@ -286,6 +286,17 @@ func (c *Chunk) addLocked(chunk pb.Chunk) bool {
 		}
 	}
 	if err := c.save(chunk); err != nil {
+		if chunk.ChunkId != 0 && vfs.IsNotExist(err) {
+			// the temp dir has been removed while the image was being received,
+			// e.g. the replica was restarted on this NodeHost, its start-up
+			// cleanup removes all receiving directories. stop tracking the stream,
+			// the sender is told that the chunk is rejected and raft will retry.
+			plog.Warningf("temp dir of %s removed while receiving, stream dropped",
+				key)
+			c.removeTempDir(chunk)
+			c.reset(key)
+			return false
+		}
 		err = errors.Wrapf(err, "failed to save chunk %s", key)
 		c.removeTempDir(chunk)
 		panicNow(err)
@@ -302,6 +313,12 @@ func (c *Chunk) addLocked(chunk pb.Chunk) bool {
 		}
 		if err := c.finalize(chunk, td); err != nil {
 			c.removeTempDir(chunk)
+			if vfs.IsNotExist(err) {
+				// same as above, the temp dir has been removed from under the stream
+				plog.Warningf("temp dir of %s removed before finalizing, image dropped",
+					key)
+				return false
+			}
 			if !errors.Is(err, ErrSnapshotOutOfDate) {
 				plog.Panicf("%s failed when finalizing, %v", key, err)
 			}
